@@ -539,6 +539,33 @@ func rwLock(fr *frame, s structure, write bool) {
 
 // stubSets are per-harness stub collections selectable from checks/<id>.json.
 var stubSets = map[string]map[string]externalFn{
+	// the harness file table (vrt.WriteFile / vrt.Chdir) as the file system
+	"vfs": {
+		"os.ReadFile": func(fr *frame, args []value) value {
+			name, ok := args[0].(string)
+			if !ok {
+				panic(pathEnd{stUnsupported, "os.ReadFile with a symbolic name"})
+			}
+			c, ok := fr.i.vfs[name]
+			if !ok {
+				return tuple{[]value(nil), loadGlobalErr(fr, "io/fs", "ErrNotExist")}
+			}
+			return tuple{append([]value{}, strBytes(c)...), iface{}}
+		},
+		"os.Stat": func(fr *frame, args []value) value {
+			name, _ := args[0].(string)
+			if _, ok := fr.i.vfs[name]; ok {
+				panic(pathEnd{stUnsupported, "os.Stat of an existing vfs file"})
+			}
+			return tuple{iface{}, loadGlobalErr(fr, "io/fs", "ErrNotExist")}
+		},
+		"os.Getwd": func(fr *frame, args []value) value {
+			if fr.i.cwd == "" {
+				return tuple{"/", iface{}}
+			}
+			return tuple{fr.i.cwd, iface{}}
+		},
+	},
 	// a file system in which nothing exists: every open fails
 	"os-nofile": {
 		"os.ReadDir": func(fr *frame, args []value) value {
